@@ -148,6 +148,14 @@ build_output = Fn(
                     assert(placed_in(defs, sp, ctx.bank_ref.0 as int));
                 }
             }
+            // C06: a reservation leaves no trace in the output, so the property is stated where it is handled:
+            // every `#res` the walk reaches fits the address range of its bank, whether or not the bank has output
+            match ctx.node {
+                asm::ResolverNode::Res(n) => {
+                    assert(bank_of(defs, ctx.bank_ref).size is Some ==> ctx.bank_data.cur_position + defs.res_directives.defs@[(n.item_ref->0).0 as int]->0.reserve_size <= bank_of(defs, ctx.bank_ref).size->0);
+                },
+                _ => {},
+            }
         }""")},
     inserts=[
         Insert("            overlap_checker.check_and_insert(\n                report,\n\t\t\t\tast_instr.span,", "            proof { assume(pos + instr.encoding.size->0 <= usize::MAX); }\n", where="before", finding="D9h",
